@@ -1,7 +1,7 @@
 (* Script.v — the script language and its model interpreter.  The same
    scripts are interpreted against the real library by harness/elfio_harness.cpp;
    both print the canonical observation lines defined here. *)
-From ElfioV Require Import Bytes Mem Stream SectionData Strings Elfio.
+From ElfioV Require Import Bytes Mem Stream SectionData Strings Elfio Table Accessors.
 Local Open Scope N_scope.
 
 Inductive sfield := SType | SFlags | SInfo | SLink | SAddralign | SEntsize | SAddr | SSize | SNameOff.
@@ -18,7 +18,58 @@ Inductive op :=
 | OpGetData (i : N)
 | OpFree (i : N)
 | OpStrAdd (i : N) (s : bytes)
-| OpStrGet (i idx : N).
+| OpStrGet (i idx : N)
+(* symbols *)
+| OpSymAdd (symsec name value size info other shndx : N)
+| OpSymAddS (symsec strsec : N) (name : bytes) (value size info other shndx : N)
+| OpSymGet (symsec idx : N)
+| OpSymName (symsec : N) (name : bytes)
+| OpSymVal (symsec value : N)
+| OpSymNum (symsec : N)
+| OpArrange (symsec relsec : N)          (* relsec = 65535: no callback *)
+(* relocations *)
+| OpRelAdd (relsec : N) (rela : bool) (offset symbol type addend : N)
+| OpRelAddI (relsec : N) (rela : bool) (offset info addend : N)
+| OpRelGet (relsec idx : N)
+| OpRelGetF (relsec idx : N)
+| OpRelSet (relsec idx offset symbol type addend : N)
+| OpRelSwap (relsec a b : N)
+| OpRelNum (relsec : N)
+(* dynamic: accessor handles *)
+| OpDynNew (k sec : N)
+| OpDynNum (k : N)
+| OpDynGet (k idx : N)
+| OpDynAdd (k tag value : N)
+| OpDynAddS (k tag : N) (str : bytes)
+(* notes *)
+| OpNoteNew (k : N) (seg : bool) (i : N)
+| OpNoteNum (k : N)
+| OpNoteGet (k idx : N)
+| OpNoteAdd (k type : N) (name desc : bytes)
+(* arrays *)
+| OpArrAdd (sec w addr : N)
+| OpArrGet (sec w idx : N)
+| OpArrNum (sec w : N)
+(* modinfo *)
+| OpModNew (k sec : N)
+| OpModNum (k : N)
+| OpModGet (k no : N)
+| OpModFind (k : N) (field : bytes)
+| OpModAdd (k : N) (field value : bytes)
+(* versym / verneed / verdef *)
+| OpVsNew (k sec : N)
+| OpVsNum (k : N)
+| OpVsGet (k no : N)
+| OpVsMod (k no value : N)
+| OpVsAdd (k value : N)
+| OpVnNew (k sec : N)
+| OpVnNum (k : N)
+| OpVnGet (k no : N)
+| OpVdNew (k sec : N)
+| OpVdNum (k : N)
+| OpVdGet (k no : N)
+| OpHashElf (name : bytes)
+| OpHashGnu (name : bytes).
 
 (* observation lines: a numeric tag, numbers, optionally a byte string *)
 Inductive obs :=
@@ -32,7 +83,61 @@ Definition T_ADDSEC := 2.    (* n 2 <index> *)
 Definition T_STRADD := 3.    (* n 3 <sec> <returned index> *)
 Definition T_STRGET := 4.    (* b 4 <sec> <idx> : string | null *)
 
-Record world := mkWorld { w_el : elfio }.
+Definition T_SYMADD := 10.   (* n 10 <returned index> *)
+Definition T_SYM := 11.      (* b 11 <sec> <idx> <ret> [value size bind type shndx other] : name *)
+Definition T_SYMN := 12.     (* b 12 <sec> <ret> [value size bind type shndx other] : queried name *)
+Definition T_SYMV := 13.     (* b 13 <sec> <ret> [size bind type shndx other] : name *)
+Definition T_SYMNUM := 14.
+Definition T_ARRANGE := 15.  (* n 15 <ret> <sh_info> *)
+Definition T_REL := 20.      (* n 20 <sec> <idx> <ret> [offset symbol type addend] *)
+Definition T_RELF := 21.     (* b 21 <sec> <idx> <ret> [offset symvalue type addend calc] : symname *)
+Definition T_RELSET := 22.
+Definition T_RELNUM := 23.
+Definition T_DYNNUM := 30.
+Definition T_DYN := 31.      (* b 31 <k> <idx> <ret> [tag value] : str *)
+Definition T_NOTENUM := 40.
+Definition T_NOTE := 41.     (* b 41 <k> <idx> <ret> [type descsz] : name *)
+Definition T_NOTED := 42.    (* b 42 <k> <idx> : desc | null *)
+Definition T_ARRG := 50.     (* n 50 <sec> <idx> <ret> [value] *)
+Definition T_ARRNUM := 51.
+Definition T_MODNUM := 60.
+Definition T_MODF := 61.     (* b 61 <k> <no> <ret> : field *)
+Definition T_MODV := 62.     (* b 62 <k> <no> : value *)
+Definition T_MODN := 63.     (* b 63 <k> <ret> : value *)
+Definition T_MODADD := 64.
+Definition T_VSNUM := 70.
+Definition T_VS := 71.       (* n 71 <k> <no> <ret> [value] *)
+Definition T_VSMOD := 72.
+Definition T_VSADD := 73.
+Definition T_VNNUM := 80.
+Definition T_VN := 81.       (* b 81 <k> <no> <ret> [version hash flags other] : file ; b 82 : dep *)
+Definition T_VNDEP := 82.
+Definition T_VDNUM := 85.
+Definition T_HASH := 90.     (* n 90 <kind 0=sysv 1=gnu> <hash> *)
+Definition T_VD := 86.       (* b 86 <k> <no> <ret> [flags ndx hash] : dep *)
+
+Inductive acc :=
+| ADyn (a : dyn_acc)
+| ANote (a : note_acc)
+| AMod (a : mod_acc)
+| AVs (a : vs_acc)
+| AVer (sec : N) (num : N).
+
+Record world := mkWorld0 { w_el : elfio; w_accs : list (N * acc) }.
+Definition mkWorld (el : elfio) : world := mkWorld0 el [].
+
+Fixpoint find_acc (l : list (N * acc)) (k : N) : option acc :=
+  match l with
+  | [] => None
+  | (k', a) :: t => if k =? k' then Some a else find_acc t k
+  end.
+Definition set_acc (w : world) (el : elfio) (k : N) (a : acc) : world :=
+  mkWorld0 el ((k, a) :: w_accs w).
+Definition keep (w : world) (el : elfio) : world := mkWorld0 el (w_accs w).
+
+Definition host_order : endian := LSB.    (* the machine the correspondence runs on *)
+
+Definition b2n (b : bool) : N := if b then 1 else 0.
 
 Definition junk0 (i : N) : N := 205.   (* 0xCD: what the model puts in fresh allocations *)
 
@@ -54,6 +159,7 @@ Definition need_sec (el : elfio) (i : N) : res section :=
 
 Definition step (w : world) (o : op) : res (world * list obs) :=
   let el := w_el w in
+  let mkWorld := keep w in
   match o with
   | OpCtor compr =>
       el1 <- (if compr then ctor_compr else ctor_plain junk0) ;;
@@ -89,6 +195,230 @@ Definition step (w : world) (o : op) : res (world * list obs) :=
       s <- need_sec el1 i ;;
       r <- get_string_raw p (sh_size s) (wrap32 idx) ;;
       Ok (mkWorld el1, [ObB T_STRGET [i; idx] r])
+  | OpHashElf name => Ok (w, [ObN T_HASH [0; elf_hash (take_cstr name)]])
+  | OpHashGnu name => Ok (w, [ObN T_HASH [1; elf_gnu_hash (take_cstr name)]])
+  (* ---- symbols ---- *)
+  | OpSymAdd symsec name value size info other shndx =>
+      '(el1, r) <- add_symbol junk0 el symsec (mkSym name value size info other shndx) ;;
+      Ok (mkWorld el1, [ObN T_SYMADD [r]])
+  | OpSymAddS symsec strsec name value size info other shndx =>
+      '(el1, r) <- add_symbol_str junk0 el symsec strsec name (mkSym 0 value size info other shndx) ;;
+      Ok (mkWorld el1, [ObN T_SYMADD [r]])
+  | OpSymGet symsec idx =>
+      '(el1, r) <- get_symbol junk0 el symsec idx ;;
+      Ok (mkWorld el1,
+          [match r with
+           | Some v => ObB T_SYM [symsec; idx; 1; sv_value v; sv_size v; sv_bind v; sv_type v; sv_shndx v; sv_other v] (Some (sv_name v))
+           | None => ObB T_SYM [symsec; idx; 0] (Some [])
+           end])
+  | OpSymName symsec name =>
+      '(el1, r) <- get_symbol_by_name junk0 el symsec name ;;
+      Ok (mkWorld el1,
+          [match r with
+           | Some v => ObB T_SYMN [symsec; 1; sv_value v; sv_size v; sv_bind v; sv_type v; sv_shndx v; sv_other v] (Some name)
+           | None => ObB T_SYMN [symsec; 0] (Some name)
+           end])
+  | OpSymVal symsec value =>
+      '(el1, r) <- get_symbol_by_value junk0 el symsec value ;;
+      Ok (mkWorld el1,
+          [match r with
+           | Some v => ObB T_SYMV [symsec; 1; sv_size v; sv_bind v; sv_type v; sv_shndx v; sv_other v] (Some (sv_name v))
+           | None => ObB T_SYMV [symsec; 0] (Some [])
+           end])
+  | OpSymNum symsec =>
+      s <- need_sec el symsec ;; Ok (w, [ObN T_SYMNUM [symsec; get_symbols_num el s]])
+  | OpArrange symsec relsec =>
+      '(el1, ret, log) <- arrange_local_symbols junk0 el symsec ;;
+      el2 <- (if relsec =? 65535 then Ok el1
+              else fold_left (fun acc pr => e <- acc ;; swap_symbols junk0 e relsec (fst pr) (snd pr)) log (Ok el1)) ;;
+      s <- need_sec el2 symsec ;;
+      Ok (mkWorld el2, [ObN T_ARRANGE [ret; sh_info s]])
+  (* ---- relocations ---- *)
+  | OpRelAdd relsec rela offset symbol type addend =>
+      el1 <- rel_add_entry_sym junk0 el relsec rela offset symbol type addend ;; Ok (mkWorld el1, [])
+  | OpRelAddI relsec rela offset info addend =>
+      el1 <- rel_add_entry junk0 el relsec rela offset info addend ;; Ok (mkWorld el1, [])
+  | OpRelGet relsec idx =>
+      '(el1, r) <- rel_get_entry junk0 el relsec idx ;;
+      Ok (mkWorld el1,
+          [match r with
+           | Some v => ObN T_REL [relsec; idx; 1; rv_offset v; rv_symbol v; rv_type v; rv_addend v]
+           | None => ObN T_REL [relsec; idx; 0]
+           end])
+  | OpRelGetF relsec idx =>
+      '(el1, r) <- rel_get_entry_full junk0 el relsec idx ;;
+      Ok (mkWorld el1,
+          [match r with
+           | Some f => let v := rf_base f in
+               ObB T_RELF [relsec; idx; 1; rv_offset v; rf_symvalue f; rv_type v; rv_addend v; rf_calc f] (Some (rf_symname f))
+           | None => ObB T_RELF [relsec; idx; 0] (Some [])
+           end])
+  | OpRelSet relsec idx offset symbol type addend =>
+      '(el1, r) <- rel_set_entry junk0 el relsec idx offset symbol type addend ;;
+      Ok (mkWorld el1, [ObN T_RELSET [b2n r]])
+  | OpRelSwap relsec a b =>
+      el1 <- swap_symbols junk0 el relsec a b ;; Ok (mkWorld el1, [])
+  | OpRelNum relsec =>
+      s <- need_sec el relsec ;; Ok (w, [ObN T_RELNUM [relsec; rel_entries_num s]])
+  (* ---- dynamic ---- *)
+  | OpDynNew k sec =>
+      _ <- need_sec el sec ;; Ok (set_acc w el k (ADyn (mkDynAcc sec 0)), [])
+  | OpDynNum k =>
+      match find_acc (w_accs w) k with
+      | Some (ADyn a) =>
+          '(el1, a1, n) <- dyn_entries_num junk0 el a ;;
+          Ok (set_acc w el1 k (ADyn a1), [ObN T_DYNNUM [k; n]])
+      | _ => Fault NullDeref
+      end
+  | OpDynGet k idx =>
+      match find_acc (w_accs w) k with
+      | Some (ADyn a) =>
+          '(el1, a1, r) <- dyn_get_entry junk0 el a idx ;;
+          Ok (set_acc w el1 k (ADyn a1),
+              [match r with
+               | Some (tag, value, str) => ObB T_DYN [k; idx; 1; tag; value] (Some str)
+               | None => ObB T_DYN [k; idx; 0] (Some [])
+               end])
+      | _ => Fault NullDeref
+      end
+  | OpDynAdd k tag value =>
+      match find_acc (w_accs w) k with
+      | Some (ADyn a) => '(el1, a1) <- dyn_add_entry junk0 el a tag value ;; Ok (set_acc w el1 k (ADyn a1), [])
+      | _ => Fault NullDeref
+      end
+  | OpDynAddS k tag str =>
+      match find_acc (w_accs w) k with
+      | Some (ADyn a) => '(el1, a1) <- dyn_add_entry_str junk0 el a tag str ;; Ok (set_acc w el1 k (ADyn a1), [])
+      | _ => Fault NullDeref
+      end
+  (* ---- notes ---- *)
+  | OpNoteNew k seg i =>
+      '(el1, a) <- note_new junk0 el (if seg then NoteSeg i else NoteSec i) ;;
+      Ok (set_acc w el1 k (ANote a), [])
+  | OpNoteNum k =>
+      match find_acc (w_accs w) k with
+      | Some (ANote a) => Ok (w, [ObN T_NOTENUM [k; wrap32 (lenN (na_starts a))]])
+      | _ => Fault NullDeref
+      end
+  | OpNoteGet k idx =>
+      match find_acc (w_accs w) k with
+      | Some (ANote a) =>
+          '(el1, r) <- note_get junk0 el a idx ;;
+          Ok (mkWorld el1,
+              match r with
+              | Some v => [ObB T_NOTE [k; idx; 1; nv_type v; nv_descsz v] (Some (nv_name v)); ObB T_NOTED [k; idx] (nv_desc v)]
+              | None => [ObB T_NOTE [k; idx; 0] (Some [])]
+              end)
+      | _ => Fault NullDeref
+      end
+  | OpNoteAdd k type name desc =>
+      match find_acc (w_accs w) k with
+      | Some (ANote a) =>
+          '(el1, a1) <- note_add junk0 el a type name desc ;; Ok (set_acc w el1 k (ANote a1), [])
+      | _ => Fault NullDeref
+      end
+  (* ---- arrays ---- *)
+  | OpArrAdd sec wd addr => el1 <- arr_add_entry junk0 el sec wd addr ;; Ok (mkWorld el1, [])
+  | OpArrGet sec wd idx =>
+      '(el1, r) <- arr_get_entry junk0 el sec wd idx ;;
+      Ok (mkWorld el1, [match r with Some v => ObN T_ARRG [sec; idx; 1; v] | None => ObN T_ARRG [sec; idx; 0] end])
+  | OpArrNum sec wd => s <- need_sec el sec ;; Ok (w, [ObN T_ARRNUM [sec; arr_entries_num s wd]])
+  (* ---- modinfo ---- *)
+  | OpModNew k sec => '(el1, a) <- mod_new junk0 el sec ;; Ok (set_acc w el1 k (AMod a), [])
+  | OpModNum k =>
+      match find_acc (w_accs w) k with
+      | Some (AMod a) => Ok (w, [ObN T_MODNUM [k; wrap32 (lenN (ma_content a))]])
+      | _ => Fault NullDeref
+      end
+  | OpModGet k no =>
+      match find_acc (w_accs w) k with
+      | Some (AMod a) =>
+          Ok (w, match mod_get a no with
+                 | Some (f, v) => [ObB T_MODF [k; no; 1] (Some f); ObB T_MODV [k; no] (Some v)]
+                 | None => [ObB T_MODF [k; no; 0] (Some [])]
+                 end)
+      | _ => Fault NullDeref
+      end
+  | OpModFind k field =>
+      match find_acc (w_accs w) k with
+      | Some (AMod a) =>
+          Ok (w, [match mod_find (ma_content a) field with
+                  | Some v => ObB T_MODN [k; 1] (Some v)
+                  | None => ObB T_MODN [k; 0] (Some [])
+                  end])
+      | _ => Fault NullDeref
+      end
+  | OpModAdd k field value =>
+      match find_acc (w_accs w) k with
+      | Some (AMod a) =>
+          '(el1, a1, pos) <- mod_add junk0 el a field value ;;
+          Ok (set_acc w el1 k (AMod a1), [ObN T_MODADD [k; pos]])
+      | _ => Fault NullDeref
+      end
+  (* ---- versym ---- *)
+  | OpVsNew k sec => a <- vs_new el sec ;; Ok (set_acc w el k (AVs a), [])
+  | OpVsNum k =>
+      match find_acc (w_accs w) k with
+      | Some (AVs a) => Ok (w, [ObN T_VSNUM [k; match get_sec el (va_sec a) with Some _ => va_num a | None => 0 end]])
+      | _ => Fault NullDeref
+      end
+  | OpVsGet k no =>
+      match find_acc (w_accs w) k with
+      | Some (AVs a) =>
+          '(el1, r) <- vs_get junk0 host_order el a no ;;
+          Ok (mkWorld el1, [match r with Some v => ObN T_VS [k; no; 1; v] | None => ObN T_VS [k; no; 0] end])
+      | _ => Fault NullDeref
+      end
+  | OpVsMod k no value =>
+      match find_acc (w_accs w) k with
+      | Some (AVs a) =>
+          '(el1, r) <- vs_modify junk0 host_order el a no value ;; Ok (mkWorld el1, [ObN T_VSMOD [k; b2n r]])
+      | _ => Fault NullDeref
+      end
+  | OpVsAdd k value =>
+      match find_acc (w_accs w) k with
+      | Some (AVs a) =>
+          '(el1, a1, r) <- vs_add junk0 host_order el a value ;;
+          Ok (set_acc w el1 k (AVs a1), [ObN T_VSADD [k; b2n r]])
+      | _ => Fault NullDeref
+      end
+  | OpVnNew k sec =>
+      '(el1, n) <- ver_entries_num junk0 el DT_VERNEEDNUM ;; Ok (set_acc w el1 k (AVer sec n), [])
+  | OpVdNew k sec =>
+      '(el1, n) <- ver_entries_num junk0 el DT_VERDEFNUM ;; Ok (set_acc w el1 k (AVer sec n), [])
+  | OpVnNum k =>
+      match find_acc (w_accs w) k with
+      | Some (AVer _ n) => Ok (w, [ObN T_VNNUM [k; n]])
+      | _ => Fault NullDeref
+      end
+  | OpVdNum k =>
+      match find_acc (w_accs w) k with
+      | Some (AVer _ n) => Ok (w, [ObN T_VDNUM [k; n]])
+      | _ => Fault NullDeref
+      end
+  | OpVnGet k no =>
+      match find_acc (w_accs w) k with
+      | Some (AVer sec n) =>
+          '(el1, r) <- verneed_get junk0 el sec n no ;;
+          Ok (mkWorld el1,
+              match r with
+              | Some v => [ObB T_VN [k; no; 1; vn_version v; vn_hash v; vn_flags v; vn_other v] (Some (vn_file v));
+                           ObB T_VNDEP [k; no] (Some (vn_dep v))]
+              | None => [ObB T_VN [k; no; 0] (Some [])]
+              end)
+      | _ => Fault NullDeref
+      end
+  | OpVdGet k no =>
+      match find_acc (w_accs w) k with
+      | Some (AVer sec n) =>
+          '(el1, r) <- verdef_get junk0 el sec n no ;;
+          Ok (mkWorld el1,
+              [match r with
+               | Some v => ObB T_VD [k; no; 1; vd_flags v; vd_ndx v; vd_hash v] (Some (vd_dep v))
+               | None => ObB T_VD [k; no; 0] (Some [])
+               end])
+      | _ => Fault NullDeref
+      end
   end.
 
 Fixpoint run_ops (w : world) (ops : list op) : list obs :=
